@@ -764,7 +764,11 @@ func goValue(r interface{ IntN(int) int }, depth int) any {
 		X, Y int
 		Name string
 	}
-	switch x := r.IntN(9); {
+	switch x := r.IntN(10); {
+	case x == 9 && depth == 3:
+		// ONE value that is an empty or nil collection, a typed nil, an empty struct: still a
+		// value (a snapshot of it is expected), not "no values"
+		return []any{[]any{}, []any(nil), []string{}, map[string]any{}, (*int)(nil), struct{}{}, [0]int{}, error(nil)}[r.IntN(8)]
 	case x == 0:
 		return r.IntN(1000) - 500
 	case x == 1:
